@@ -781,11 +781,15 @@ func (c *Ctx) locate(file string, line, col int) (string, string) {
 func innermostLoop(f *ssa.Function, b *ssa.BasicBlock) map[*ssa.BasicBlock]bool {
 	var best map[*ssa.BasicBlock]bool
 	for _, h := range f.Blocks {
+		// the natural loop of header h: union over all its back edges
+		var loop map[*ssa.BasicBlock]bool
 		for _, t := range h.Preds {
 			if !h.Dominates(t) {
 				continue
 			}
-			loop := map[*ssa.BasicBlock]bool{h: true}
+			if loop == nil {
+				loop = map[*ssa.BasicBlock]bool{h: true}
+			}
 			work := []*ssa.BasicBlock{t}
 			for len(work) > 0 {
 				x := work[len(work)-1]
@@ -796,9 +800,9 @@ func innermostLoop(f *ssa.Function, b *ssa.BasicBlock) map[*ssa.BasicBlock]bool 
 				loop[x] = true
 				work = append(work, x.Preds...)
 			}
-			if loop[b] && (best == nil || len(loop) < len(best)) {
-				best = loop
-			}
+		}
+		if loop != nil && loop[b] && (best == nil || len(loop) < len(best)) {
+			best = loop
 		}
 	}
 	return best
